@@ -8,7 +8,7 @@ import pandas as pd
 from . import docs
 
 L = 377580          # lcm(28..31): per-day usage constants divisible by every month length stay integer through the billing spread
-VARIANTS = ["pad30_chicago", "pad30_kolkata", "pad120_chicago", "pad366_london"]
+VARIANTS = ["pad30_chicago", "pad30_kolkata", "pad120_chicago", "pad366_london", "pad30_chicago_nullable"]      # _nullable: temperature as a pandas nullable Float64 column (pd.NA)
 _models = {}
 _em = {}
 
@@ -28,6 +28,7 @@ def _model(fam, tz, m):
 
 
 def _variant(v):
+    v = v.replace("_nullable", "")
     tz = {"pad30_chicago": "America/Chicago", "pad30_kolkata": "Asia/Kolkata", "pad120_chicago": "America/Chicago", "pad366_london": "Europe/London"}[v]
     total = {"pad30_chicago": 30, "pad30_kolkata": 30, "pad120_chicago": 120, "pad366_london": 366}[v]
     return tz, total
@@ -78,9 +79,16 @@ def realise(cin, variant):
     out = {"res": "ok", "rows_ok": True, "rows": [], "obsCol": False, "sumPred": 0, "sumObs": 0, "sumRow": 0}
     try:
         if not billing:
-            data = em.DailyReportingData(pd.DataFrame({"temperature": T, "observed": obs}, index=idx), is_electricity_data=False)
+            frame = pd.DataFrame({"temperature": T, "observed": obs}, index=idx)
+            if variant.endswith("_nullable"):       # what convert_dtypes() / read_csv(dtype_backend="numpy_nullable") hand over: missing is pd.NA
+                frame["temperature"] = pd.array(np.where(np.isnan(T), 0.0, T), dtype="Float64")
+                frame.loc[np.isnan(T), "temperature"] = pd.NA
+            data = em.DailyReportingData(frame, is_electricity_data=False)
         else:
             temp = pd.Series(T, index=idx, name="temperature")
+            if variant.endswith("_nullable"):
+                temp = pd.Series(pd.array(np.where(np.isnan(T), 0.0, T), dtype="Float64"), index=idx, name="temperature")
+                temp[np.isnan(T)] = pd.NA
             ms = pd.date_range(idx[0], periods=len(cin["rows"]) + 1, freq="MS")
             amounts = []
             for k, r in enumerate(cin["rows"]):
